@@ -186,3 +186,15 @@ def _prevouts_tables(c, prog):
            if "PrevoutIndex" in show(e["args"][1]) and ("discr(arg1)", "All") in cond_desc(b, e["conds"])]
     ok2 = len(all_ret) == 1 and "core::slice::get(arg1.0, arg2)" in (all_ret[0][1] or "") and len(oko) == 1
     c.inst("R4.get-all", "All(ps): ps.get(input_index).ok_or(PrevoutIndex)", ok2, "returns %s" % rets, fg.where(), fg.path)
+
+    # the ANYONECANPAY split the guards above rely on, as an exact table over every variant of the hash type
+    from .predicates import split_table as _split_table
+    for _p in ("sighash::SchnorrSighashType::split_anyonecanpay_flag", "transaction::EcdsaSighashType::split_anyonecanpay_flag"):
+        _f, _t = _split_table(prog, _p)
+        _bad = []
+        for _d, (_name, _r) in sorted(_t.items()):
+            _acp = _name.endswith("PlusAnyoneCanPay")
+            _base = _name[:-len("PlusAnyoneCanPay")] if _acp else _name
+            if _r != (_base, int(_acp)):
+                _bad.append((_name, _r))
+        c.inst("R1.acp-split-table", _p.split("::")[-2], not _bad and len(_t) >= 6, "table %s; deviations %s" % ({k: v[1] for k, v in _t.items()}, _bad), _f.where(), _p)
